@@ -103,6 +103,15 @@ func (c *CroltSimple) ScheduleEvent(ctx *core.Context, se *ScheduledEvent) error
 
 	sw := &ScheduledWork{work, ctl}
 
+	// The service refuses a job that exists.  A rule whose schedule
+	// is replaced by another schedule has one (nobody told the
+	// service to forget it: the states run the remove hook only
+	// when the new version isn't scheduled at all), so it goes
+	// first.  Removing a job that isn't there is harmless.
+	if _, err := c.Rem(ctx, se.Id); err != nil {
+		core.Log(core.WARN|CRON, ctx, "CroltSimple.ScheduleEvent", "id", se.Id, "warning", err, "when", "Rem")
+	}
+
 	return c.Schedule(ctx, sw)
 }
 
@@ -139,8 +148,15 @@ func (c *CroltSimple) Schedule(ctx *core.Context, work *ScheduledWork) error {
 	url := strings.Trim(c.CroltURL, "/") + "/add"
 	req := core.NewHTTPRequest(ctx, "POST", url, body)
 
-	_, err = req.Do(ctx)
+	res, err := req.Do(ctx)
 	if nil != err {
+		core.Log(core.WARN|CRON, ctx, "CroltSimple.Schedule", "id", id, "error", err)
+		return err
+	}
+	if res != nil && 300 <= res.Status {
+		// The service said no (a schedule it can't read, a job
+		// that exists): the job isn't scheduled.
+		err = fmt.Errorf("cron service refused job %s: %d %s", id, res.Status, strings.TrimSpace(res.Body))
 		core.Log(core.WARN|CRON, ctx, "CroltSimple.Schedule", "id", id, "error", err)
 		return err
 	}
